@@ -344,12 +344,33 @@ func H_C13_choice(v *V) {
 	}
 }
 
+// H_C13_long: an entry whose line is longer than the reader's buffer stores
+// what the flag stores.
+func H_C13_long(v *V) {
+	L := v.Shape("L")
+	fill := make([]byte, L)
+	for i := range fill {
+		fill[i] = byte('a' + i%19)
+	}
+	val := string(fill) + c14Value(v, 1)
+	a, errA := c13Parse("alias = "+val+"\nnum = 7\n", v.Choice(2) == 1, nil)
+	b, errB := c13Parse("", false, []string{"--alpha=" + val, "--num=7"})
+	vObsErr(v, errA)
+	v.Assert(errA == nil && errB == nil, "a long value is accepted from the INI text and from the flag")
+	if errA != nil || errB != nil {
+		return
+	}
+	v.Reach("success")
+	v.Assert(len(a.Alpha) == len(b.Alpha) && v.EqStr(a.Alpha, b.Alpha) && a.N == b.N && a.N == 7, "a long entry and the entry after it store the same values as the corresponding flags")
+}
+
 // H_C14_sections: the same harness decides C14's unknown-option clause.
 func H_C14_sections(v *V) { H_C13_sections(v) }
 
 func init() {
 	vHarnesses["H_C13_sections"] = H_C13_sections
 	vHarnesses["H_C13_choice"] = H_C13_choice
+	vHarnesses["H_C13_long"] = H_C13_long
 	vHarnesses["H_C14_sections"] = H_C14_sections
 	vHarnesses["H_C13_value"] = H_C13_value
 	vHarnesses["H_C13_equiv"] = H_C13_equiv
